@@ -185,8 +185,15 @@ def make_copy(m, dst):
                     REPO + "/", dst + "/"], check=True)
     p = os.path.join(dst, m["file"])
     b = open(p, "rb").read()
-    assert b[m["start"]:m["end"]].decode("utf-8") == m["old"], (m, b[m["start"]:m["end"]])
-    open(p, "wb").write(b[:m["start"]] + m["new"].encode("utf-8") + b[m["end"]:])
+    st, en, old = m["start"], m["end"], m["old"].encode("utf-8")
+    if b[st:en] != old:
+        # the file changed since `gen` (a fix: commit): the same token on the same line, nearest to the old offset
+        cands = [i for i in range(max(0, st - 400), min(len(b), st + 400)) if b[i:i + len(old)] == old
+                 and b[:i].count(b"\n") + 1 == m["line"]]
+        assert cands, ("cannot re-locate", m)
+        st = min(cands, key=lambda i: abs(i - m["start"]))
+        en = st + len(old)
+    open(p, "wb").write(b[:st] + m["new"].encode("utf-8") + b[en:])
 
 
 def suite_one(m):
